@@ -27,7 +27,10 @@ def fn_key(f):
 
 def canon(sig):
     """(parameters, provenance) with callables named, not identified"""
-    ps = tuple((p.name, p.kind.name, ('E' if p.default is p.empty else repr(p.default)))
+    def dflt(v):
+        # identity-free: a callable default is named, not shown with its address
+        return 'fn:' + fn_key(v) if callable(v) else repr(v)
+    ps = tuple((p.name, p.kind.name, ('E' if p.default is p.empty else dflt(p.default)))
                for p in sig.parameters.values())
     src = getattr(sig, 'sources', None) or {}
     prov = tuple(sorted((k, tuple(fn_key(f) for f in v)) for k, v in src.items() if k != '+depths'))
@@ -58,7 +61,7 @@ def wrapper_function(p, ns):
     w = ns['wrapper']
     if p.route == 'method':
         return ns['K'].__dict__['wrapper'], w
-    if p.route == 'parameter':
+    if p.route in ('parameter', 'param_default'):
         return ns['wrapper_'], w
     if p.route == 'modifiers':
         f = w
@@ -199,6 +202,8 @@ def model_discover(p, ns):
         bound = {'self': ns['inst']}
     elif p.route == 'parameter':
         bound = {'fparam': ns[list(p.callees)[0]]}
+    elif p.route == 'param_default':
+        bound = {'first_': 0}
     own = describe_sig(PS.signature(fn))
     plain_sig = PS.signature(obj)
     infos = []
